@@ -127,7 +127,7 @@ def run(ctx):
     ctx.assumptions = ["the packet is a mapping: a name decoded twice keeps its first position and last value (DESIGN C05)",
                        "criteria whose operands are missing are 'undefined': any outcome accepted"]
     groups = []
-    for ncont, sample in ((2, None), (3, 700 if q else None), (4, 250 if q else 6000)):
+    for ncont, sample in ((2, None), (3, 700 if q else None), (4, 250 if q else 4000)):
         defs_ = forest_defns(ncont, (1, 2) if ncont < 4 else (1,), rng, sample)
         for i, d in enumerate(defs_):
             nb = max_bits(d)
